@@ -66,6 +66,9 @@ def prelude(ft: Features):
             # a rule whose conclusion is ground while its hypotheses are schematic
             ('block', [('e', 'rule-t.0', (TH, A('\\f', V('ph0')))),
                        ('a', 'rule-t', (TH, A('\\g', A('c1'), A('c0'), A('c1'))))]),
+            # two hypotheses; ph1 occurs ONLY in the first one (not in the last hypothesis, not in the conclusion)
+            ('block', [('e', 'rule-v.0', (TH, A('\\g', V('ph0'), V('ph1'), A('c0')))), ('e', 'rule-v.1', (TH, IMP(V('ph0'), V('ph2')))),
+                       ('a', 'rule-v', (TH, V('ph2')))]),
             # the same hypothesis stated twice (one proof is supplied per $e statement)
             ('block', [('e', 'rule-d.0', (TH, V('ph0'))), ('e', 'rule-d.1', (TH, V('ph0'))),
                        ('a', 'rule-d', (TH, A('\\g', V('ph0'), V('ph0'), A('c1'))))]),
@@ -166,6 +169,20 @@ def derivations(ft: Features, height: int, npool: int, max_per_level: int = 400)
                 if mmref.tree_size(tr1) <= 12 and add(A('\\g', t1, t1, A('c1')), apply('rule-d', frames, {'ph0': t1}, [tr1, tr1]), h):
                     new += 1
         if ft.rules:
+            for t1, tr1, h1 in cur:
+                # rule-v: from g(X, Y, c0) and X -> Z conclude Z
+                if t1[0] == 'app' and t1[1] == '\\g' and t1[2][2] == A('c0'):
+                    x, y = t1[2][0], t1[2][1]
+                    for t2, tr2, h2 in cur:
+                        if new >= max_per_level:
+                            break
+                        if t2[0] == 'app' and t2[1] == '\\imp' and t2[2][0] == x and max(h1, h2) == h - 1:
+                            z = t2[2][1]
+                            # every such application is a different derivation of z: key it by its premises
+                            key = 'rule-v:' + mmref.term_str(t1) + '|' + mmref.term_str(z)
+                            if key not in thms and sum(1 for k in thms if k.startswith('rule-v:')) < 12:
+                                thms[key] = (z, apply('rule-v', frames, {'ph0': x, 'ph1': y, 'ph2': z}, [tr1, tr2]), h)
+                                new += 1
             for t1, tr1, h1 in cur:
                 if t1 == A('\\f', A('c0')) and h1 == h - 1:
                     if add(G, ('rule-u', [tr1]), h):
